@@ -28,6 +28,25 @@ CHECKS = {
             "trusted: Fraction arithmetic; the 1e-9 guard band at angle-interval ends (either answer accepted there, "
             "counted as guarded); values between grid points are represented by one off-grid letter per cell only",
             "DESIGN.md §4 C16"),
+    "C13": ("exhaustive enumeration of the full ScenarioID field product and of all (model,type,cost) tuples / ordered pairs "
+            "/ core triples through the real printer, parser, solution writer and reader, against an independent grammar",
+            "Every ScenarioID over the field alphabets (quick 5 countries, thorough all ISO-3166 alpha-3 + ZAM: 1.7 M ids) is "
+            "printed, matched against an independently written grammar, compared field-by-field with what it must spell, "
+            "parsed back and re-printed. Every admissible solution tuple, every ordered pair and core triples are written by "
+            "CommonRoadSolutionWriter and read by CommonRoadSolutionReader and compared. Complete within these alphabets.",
+            "trusted: the regular grammar written from the id documentation; one-element prediction lists excluded "
+            "(ambiguous by construction)",
+            "DESIGN.md §4 C13"),
+    "C14": ("exhaustive enumeration of all solution specs within k deviations (k<=1 quick + k=2 on the shape sub-menu; k<=2 "
+            "thorough) of 7 base solutions, each dumped and re-read by the real writer/reader and validated with lxml "
+            "against the shipped solution XSD",
+            "Deviation-bounded complete enumeration (CHESS-style bound on departures from a base input): every model / type / "
+            "cost, time offsets, lengths, every scalar slot of every state set to every letter of a 16-letter value alphabet "
+            "(ints, numpy floats, denormals, 1e300, -0.0), metadata and a second planning problem of every kind in both "
+            "orders. Oracle: float.hex-identical values, ids, types, order, metadata; XSD validity in schema order.",
+            "trusted: lxml's XSD validator, float.hex comparison; values outside the alphabet and >2 simultaneous deviations "
+            "are not covered",
+            "DESIGN.md §4 C14"),
 }
 
 NOT_YET = {}
